@@ -34,6 +34,10 @@ dbllib: $(B)/libgama_dbl.a
 $(B)/gen/svd_stub.cpp: $(REPO)/lib/matvec/svd.h symx/gen_svd_stub.py
 	@mkdir -p $(B)/gen
 	python3 symx/gen_svd_stub.py $(REPO)/lib/matvec/svd.h $@
+# C17: the text of statan.cpp with observers at its two unbounded loops (included by harness/h_stat.cpp)
+$(B)/gen/statan_real.inc: $(REPO)/lib/gnu_gama/statan.cpp symx/gen_statan_real.py
+	@mkdir -p $(B)/gen
+	python3 symx/gen_statan_real.py $(REPO)/lib/gnu_gama/statan.cpp $@
 $(B)/gen/svd_stub.o: $(B)/gen/svd_stub.cpp symx/prefix.h symx/sx.h symx/svd_contract.h
 	$(CXX) $(SYMFLAGS) -MMD -MP -c $< -o $@
 $(B)/svd_contract.o: symx/svd_contract.cpp symx/prefix.h symx/sx.h symx/svd_contract.h
@@ -54,12 +58,12 @@ $(B)/dbl/%.o: $(REPO)/lib/%.cpp
 
 # harnesses: the same source, symbolic and replay build
 HARN := $(patsubst harness/h_%.cpp,%,$(wildcard harness/h_*.cpp))
-$(B)/bin/%.sym: harness/h_%.cpp $(B)/libgama_sym.a $(B)/sx.o harness/*.h
+$(B)/bin/%.sym: harness/h_%.cpp $(B)/libgama_sym.a $(B)/sx.o harness/*.h $(B)/gen/statan_real.inc
 	@mkdir -p $(B)/bin
-	$(CXX) $(SYMFLAGS) -Iharness -MMD -MP -MF $(B)/bin/$*.sym.d $< $(B)/sx.o $(B)/libgama_sym.a -rdynamic -lz3 -lgmpxx -lgmp -lexpat -o $@
-$(B)/bin/%.dbl: harness/h_%.cpp $(B)/libgama_dbl.a $(B)/sx_replay.o harness/*.h
+	$(CXX) $(SYMFLAGS) -Iharness -I$(B)/gen -MMD -MP -MF $(B)/bin/$*.sym.d $< $(B)/sx.o $(B)/libgama_sym.a -rdynamic -lz3 -lgmpxx -lgmp -lexpat -o $@
+$(B)/bin/%.dbl: harness/h_%.cpp $(B)/libgama_dbl.a $(B)/sx_replay.o harness/*.h $(B)/gen/statan_real.inc
 	@mkdir -p $(B)/bin
-	$(CXX) $(DBLFLAGS) -DSX_REPLAY -Iharness -MMD -MP -MF $(B)/bin/$*.dbl.d $< $(B)/sx_replay.o $(B)/libgama_dbl.a -lgmpxx -lgmp -lexpat -o $@
+	$(CXX) $(DBLFLAGS) -DSX_REPLAY -Iharness -I$(B)/gen -MMD -MP -MF $(B)/bin/$*.dbl.d $< $(B)/sx_replay.o $(B)/libgama_dbl.a -lgmpxx -lgmp -lexpat -o $@
 
 -include $(SYMOBJ:.o=.d) $(DBLOBJ:.o=.d) $(B)/gen/svd_stub.d $(B)/svd_contract.d $(wildcard $(B)/bin/*.d)
 
